@@ -53,6 +53,7 @@ type SeqCheck struct {
 	Proc *ProcCheck
 	// extra drivers contributing observations
 	Extra func(e *Env, cov map[string]any) ([]*Obs, error)
+	NoBig bool // skip the large-configuration walks
 }
 
 // judgeAcc judges observations in batches and keeps only what the report needs
@@ -339,6 +340,39 @@ func (c *SeqCheck) Run(e *Env) (*Outcome, *Evidence, error) {
 		}
 		histories += ds.Histories
 		cov["e2"] = map[string]any{"model": c.Sim.Name, "walks": len(walks), "depth": c.Sim.Depth, "steps": len(o), "wall_s": ds.Wall}
+	}
+
+	// 3b. large configurations: long random histories over many items (harness/bigwalk.go)
+	if !c.NoBig {
+		nBig, depth := 5, 70
+		if thorough {
+			nBig, depth = 60, 90
+		}
+		o, err := e.bigWalks("big", nBig, depth, e.Seed)
+		if err != nil {
+			return nil, nil, err
+		}
+		obs = append(obs, o...)
+		histories += nBig
+		maxItems, maxLog := 0, 0
+		for _, x := range o {
+			if n := len(x.Post); n > maxItems {
+				maxItems = n
+			}
+			if n := len(x.LogPost); n > maxLog {
+				maxLog = n
+			}
+		}
+		cov["big_walks"] = map[string]any{"walks": nBig, "depth": depth, "steps": len(o), "largest_store_items": maxItems, "longest_log_events": maxLog,
+			"rule": "random commands over up to 14 tasks and 7 epics (chains of up to 7 ids, plans of up to 8 tasks with after lists of up to 5, results, prunes, compactions), generated by the harness, every step judged by the same clauses"}
+		if len(obs) >= judgeBatch {
+			lap("drive_other")
+			if err := acc.add(obs); err != nil {
+				return nil, nil, err
+			}
+			obs = nil
+			lap("tlc_judge")
+		}
 	}
 
 	if len(c.Probes) > 0 {
